@@ -8,6 +8,7 @@ import (
 	"os/exec"
 	"os/signal"
 	"path/filepath"
+	"regexp"
 	"sort"
 	"strings"
 	"syscall"
@@ -41,6 +42,54 @@ func probeOtherUID(gitbug string) int {
 	}
 	otherUIDNote = fmt.Sprintf("uid/gid %d, no supplementary groups (holders run as uid %d)", nobody, os.Geteuid())
 	return nobody
+}
+
+// flagSweepSkip: commands left out of the flag sweep (long-running user interfaces)
+var flagSweepSkip = map[string]bool{"termui-no-tty": true}
+
+var flagLine = regexp.MustCompile(`^\s+(?:-(\w), )?--([\w-]+)(?: (\S+))?\s{2,}(.*)$`)
+
+// discoverFlags asks the binary under test for the local flags of every catalogue command
+// (`git-bug <arguments> --help`, section "Flags:"; help is answered before any pre-run, nothing is opened).
+func discoverFlags(env *Env) {
+	env.Flags = map[string][]FlagInfo{}
+	for name, args := range cliCatalogue {
+		cmd := exec.Command(env.GitBug, append(append([]string{}, cmdPath(args)...), "--help")...)
+		cmd.Env = []string{"PATH=" + os.Getenv("PATH"), "HOME=" + env.Scratch, "DBUS_SESSION_BUS_ADDRESS=unix:path=/nonexistent"}
+		cmd.Dir = env.Scratch
+		out, err := cmd.Output()
+		if err != nil {
+			fail("git-bug %v --help: %v", cmdPath(args), err)
+		}
+		in := false
+		for _, l := range strings.Split(string(out), "\n") {
+			switch {
+			case strings.HasPrefix(l, "Flags:"):
+				in = true
+				continue
+			case strings.TrimSpace(l) == "" || !strings.HasPrefix(l, " "):
+				in = false
+			}
+			m := flagLine.FindStringSubmatch(l)
+			if !in || m == nil || m[2] == "help" {
+				continue
+			}
+			f := FlagInfo{Name: m[2], Short: m[1], Type: m[3]}
+			if f.Type != "" {
+				help := strings.ToLower(m[4])
+				switch {
+				case strings.HasPrefix(f.Type, "int") || strings.HasPrefix(f.Type, "uint"):
+					f.Value = "1"
+				case strings.Contains(help, "date") || strings.Contains(help, "time"):
+					f.Value = "2020-01-01"
+				default:
+					f.Value = "x"
+				}
+			}
+			env.Flags[name] = append(env.Flags[name], f)
+		}
+		sort.Slice(env.Flags[name], func(i, j int) bool { return env.Flags[name][i].Name < env.Flags[name][j].Name })
+	}
 }
 
 var allCLI = []string{"bug-new", "bug-show-missing", "bug-rm-missing", "pull-missing", "user-new", "bug-list", "wipe", "webui-bad-port", "termui-no-tty"}
@@ -94,7 +143,35 @@ func plan(tier string) []planned {
 	} {
 		ps = append(ps, planned{Config{Name: "command sweep: " + sit.name, Holders: 1, Prefix: sit.prefix, CLI: every, UCLI: every, Depth: 1}, 5 * time.Minute})
 	}
+	// flag sweep: every command with each single local flag and each pair of local flags
+	var flagged []string
+	for _, n := range every {
+		if !flagSweepSkip[n] {
+			flagged = append(flagged, n)
+		}
+	}
+	for _, sit := range []struct {
+		name   string
+		prefix []string
+	}{
+		{"identity selected", []string{"cli:user-new"}},
+		{"identity and a bug", []string{"cli:user-new", "cli:bug-new"}},
+		{"live holder, identity selected", []string{"cli:user-new", "open:1"}},
+	} {
+		ps = append(ps, planned{Config{Name: "flag sweep: " + sit.name, Holders: 1, Prefix: sit.prefix, FCLI: flagged, Depth: 1}, 5 * time.Minute})
+	}
 	return ps
+}
+
+func flagSweepNames() []string {
+	var ns []string
+	for n := range cliCatalogue {
+		if !flagSweepSkip[n] {
+			ns = append(ns, n)
+		}
+	}
+	sort.Strings(ns)
+	return ns
 }
 
 // uncoveredCommands compares `git-bug commands` of the binary under test with the catalogue.
@@ -198,7 +275,9 @@ func setup() *Env {
 		fail("template repository: %v", err)
 	}
 	_ = repo.Close()
-	return &Env{Self: self, GitBug: gitbug, Template: tmpl, Scratch: scratchDir, OtherUID: probeOtherUID(gitbug)}
+	env := &Env{Self: self, GitBug: gitbug, Template: tmpl, Scratch: scratchDir, OtherUID: probeOtherUID(gitbug)}
+	discoverFlags(env)
+	return env
 }
 
 // Main is the C19 check.
@@ -251,7 +330,7 @@ func Main(args []string) {
 			verdicts[f.Oracle] += f.Count
 		}
 		runs = append(runs, map[string]any{
-			"name": cfg.Name, "holders": cfg.Holders, "inside_open": cfg.Step, "prefix": cfg.Prefix, "cli_catalogue": cfg.CLI, "cli_catalogue_other_uid": cfg.UCLI,
+			"name": cfg.Name, "holders": cfg.Holders, "inside_open": cfg.Step, "prefix": cfg.Prefix, "cli_catalogue": cfg.CLI, "cli_catalogue_other_uid": cfg.UCLI, "flag_sweep_commands": cfg.FCLI,
 			"depth_bound": cfg.Depth, "depth_completed": ex.DepthDone, "states": ex.States, "transitions": ex.Transitions,
 			"process_runs": ex.Executions, "new_states_per_depth": ex.PerDepth, "terminal_states": ex.Terminal,
 			"event_orders_represented": ex.Orders, "exhaustive": ex.Exhaustive, "fixpoint": ex.Fixpoint, "violation_shapes": found,
@@ -289,6 +368,35 @@ func Main(args []string) {
 	cov["distinct_outcomes"] = len(outcomes)
 	cov["violations_by_oracle"] = verdicts
 	cov["other_uid_events"] = otherUIDNote
+	fsw := map[string]any{}
+	perCmd := map[string][]string{}
+	variants, killed, nflags := 0, 0, 0
+	for _, n := range flagSweepNames() {
+		perCmd[n] = []string{}
+		for _, f := range env.Flags[n] {
+			d := "--" + f.Name
+			if f.Type != "" {
+				d += "=" + f.Value + " (" + f.Type + ")"
+			}
+			perCmd[n] = append(perCmd[n], d)
+			nflags++
+		}
+	}
+	for k, v := range outcomes {
+		if strings.HasPrefix(k, "fcli:") {
+			variants += v
+			if strings.HasSuffix(k, "-> killed-at-timeout") {
+				killed += v
+			}
+		}
+	}
+	fsw["commands"] = len(perCmd)
+	fsw["flags_discovered"] = nflags
+	fsw["flags_per_command"] = perCmd
+	fsw["variants_run"] = variants
+	fsw["killed_at_timeout_not_judged"] = killed
+	fsw["variant_time_limit_s"] = flagLimit.Seconds()
+	cov["flag_sweep"] = fsw
 	cov["cli_commands_not_in_catalogue"] = uncoveredCommands(env)
 	ev := evidence.Evidence{PropertyID: "C19", Tier: tier, Seed: evidence.Seed(), Level: "model_checking", Coverage: cov,
 		Assumptions: assumptions, WallS: time.Since(start).Seconds(), Violations: rep.Viol, Known: rep.KnownSeen()}
